@@ -43,6 +43,28 @@ def run(rep, idx, tier):
             rep.check(c.norm(s.ctor) == c.parse("Signal(N)", {"N": N}), "C09.2", site, "one request bit per initiator",
                       f"created as {ir.show(c.norm(s.ctor))}")
     if REQ is None:
+        # the same vector filled bit by bit: for k, intr in enumerate(INTRS): requests[k].eq(intr.cyc)
+        for s in c.t.sigs.values():
+            S = ('sig', s.id, s.name)
+            fam = [(dom, t, ds) for dom, t, ds in c.targets_matching(lambda t: t[0] == 'sub' and t[1] == S and t[2][0] == 'idx')]
+            if len(fam) != 1 or c.drivers_of(S):
+                continue
+            dom, t, ds = fam[0]
+            L = c.t.loops.get(t[2][1])
+            if L is None or len(ds) != 1:
+                continue
+            over = (L.seq is not None and c.norm(L.seq) == r.INTRS and not L.reversed) or \
+                (L.kind == 'range' and c.norm(L.bounds[0]) == ('const', 0) and c.norm(L.bounds[1]) == N and not L.reversed)
+            want = ir.subst(c.norm(('attr', r.intr, 'cyc')), lambda x: ('idx', L.id) if x == r.k else None)
+            if over and c.norm(ds[0].value) == c.norm(want):
+                REQ = S
+                ok = dom == "comb" and not ds[0].dsl and [fr for fr in ds[0].gen if fr[0] != 'for'] == []
+                rep.check(ok, "C09.2", site, "request bit k == cyc of initiator k (one assignment per list position), always",
+                          "the request vector must be an unconditional combinational copy of the cyc lines")
+                rep.check(c.norm(s.ctor) == c.parse("Signal(N)", {"N": N}), "C09.2", site, "one request bit per initiator",
+                          f"created as {ir.show(c.norm(s.ctor))}")
+                break
+    if REQ is None:
         rep.unk("C09.2", site, "request vector", "no local signal was recognised as the list-ordered collection of the initiators' cyc lines")
         return
 
